@@ -236,7 +236,10 @@ class ItemList:
             scores = None
         else:
             if scores is None and "score" in eff_fields:
-                scores = np.require(eff_fields["score"], dtype=np.float32)
+                in_scores = eff_fields["score"]
+                # a non-empty, all-null Arrow column means "this list has no scores"
+                if not (isinstance(in_scores, pa.Array) and len(in_scores) and array_is_null(in_scores)):
+                    scores = np.require(in_scores, dtype=np.float32)
             elif scores is not None:
                 if "score" in fields:  # pragma: nocover
                     raise ValueError("cannot specify both scores= and score=")
@@ -645,7 +648,9 @@ class ItemList:
                 elif fld := self._fields.get(c_name, None):
                     arrays.append(fld.arrow())
                 else:
-                    warnings.warn(f"unknown field {c_name}", DataWarning)
+                    # the requested schema has a field this list lacks: an all-null
+                    # column keeps names and arrays aligned and reads back as "absent"
+                    arrays.append(pa.nulls(len(self), c_type))
 
         if type == "table":
             return pa.Table.from_arrays(arrays, names)
